@@ -44,7 +44,9 @@ impl RustDocument {
     }
 
     pub fn extend(&mut self, other: RustDocument) {
-        self.namespace_lookup.extend(other.namespace_lookup);
+        // the prefix table (`namespace_lookup`) is per document and is deliberately not merged:
+        // the prefixes of an imported file must neither rebind the prefixes of the importing
+        // file nor shadow prefixes it declares later on
 
         extend_no_duplicates(&mut self.namespaces, other.namespaces);
         extend_no_duplicates(&mut self.target_namespaces, other.target_namespaces);
